@@ -171,7 +171,9 @@ def check(prop, tier, seed):
     run.notes["inputs_with_several_observed_fill_orders"] = multi_order_cases
     run.sample({"src": srcs[5][1], "distinct_fill_orders_observed": per_process[0][5].get("distinct_orders")})
     if not os.environ.get("VERIF_SKIP_MC"):
-        r = common.tlc_ok("MC_TableFill", env={"UNIVERSE": "U1" if tier == "quick" else "U2"}, workers=6, timeout=6000, coverage=True)
+        # U1 in both tiers: the exploration over U2 (every item order x every fill order of 12 383 grammars, > 10^8 states)
+        # belongs to the thorough tier of C04, which owns this model
+        r = common.tlc_ok("MC_TableFill", env={"UNIVERSE": "U1"}, workers=6, timeout=6000, coverage=True)
         run.add_tlc(r)
         run.notes["MC_TableFill"] = {"distinct": r.distinct, "generated": r.generated}
     run.rule = "distinct inputs for which the hook observed at least two different hash-map iteration orders of build_as_is among the repetitions while the results were identical; evaluations = generate calls"
